@@ -179,6 +179,15 @@ def short_window_fact(fact):
         if (e.q or "").split("::")[-1] == "is_empty" and fact[2] is True:
             return window_of(e.args[0]) if e.args else None
         return None
+    if rel in ("IntEq", "IntNe") and fact[1] is not None and fact[1].k == "discr":
+        # a packet stream: `self.F.pop()` / `peek_size()` returned None <=> the queue of F is empty
+        x = peel(fact[1].a, through_try=False)
+        if x is not None and x.k == "call" and (x.q or "").split("::")[-1] in ("pop", "peek_size") and "NCReadStream" in (x.q or "") and x.args:
+            fp = self_field_path(x.args[0])
+            is_none = (rel == "IntEq" and fact[2] == 0) or (rel == "IntNe" and fact[2] == 1)
+            if fp and is_none:
+                return (".".join(fp), "R")
+        return None
     if rel == "IntEq" and fact[2] == 0:
         mt = masked_len_threshold(fact[1])
         return len_of_window(fact[1]) or (mt[0] if mt else None)
